@@ -194,7 +194,7 @@ class Tensor:
             raise RuntimeError("Only floating point Tensors can require gradients")
         self._requires_grad = req_grad
         self._retain_grad = False
-        self._children = children
+        self._children = children if req_grad else () # untracked results keep no history alive
         self._operation = operation
         self._name = name
         self._initialized = True
